@@ -100,6 +100,11 @@ class Prior(HoloPyObject):
         return self * value
 
     def __truediv__(self, value):
+        if isinstance(value, np.ndarray):
+            return np.array([self / val for val in value])
+        if isinstance(value, Number) and value == 0:
+            # (1/value is inf with only a warning for a numpy zero)
+            raise ZeroDivisionError("Cannot divide a prior by 0")
         return self * (1/value)
 
     def __rtruediv__(self, value):
